@@ -312,7 +312,7 @@ func genC04(g *Gen) {
 			g.Do("bmtree.AllPaths", L(I32(T), U(from), U(to)), key)
 		}
 		// widening ops on a share of the same windows
-		if rel && from <= to && (h > 5 && g.R.Intn(3) == 0 || g.R.Intn(32) == 0) {
+		if rel && from <= to && (h > 5 && g.R.Intn(4) == 0 || g.R.Intn(32) == 0) {
 			mid := from + (to-from)/2
 			if n > 0 && g.R.Bool() {
 				// split at (or next to) a word inside the window
@@ -328,7 +328,7 @@ func genC04(g *Gen) {
 			g.Stat("split")
 			g.Do("bmtree.AllPaths/split", L(I32(T), U(from), U(mid), U(to)), k2)
 		}
-		if h <= 11 && (h > 5 && g.R.Intn(2) == 0 || g.R.Intn(32) == 0) {
+		if h <= 11 && (h > 5 && g.R.Intn(2) == 0 || g.R.Intn(32) == 0) && (rel || g.R.Bool()) {
 			k2 := ""
 			if key != "" {
 				k2 = "I" + key[1:]
